@@ -164,6 +164,8 @@ func (c *clientService) TerminateSession(clientID string) {
 // Create a server by using New()
 type server struct {
 	wg       sync.WaitGroup
+	// acceptWg counts the accept loops of the TCP listeners (Stop waits for them before it sweeps the connections)
+	acceptWg sync.WaitGroup
 	initOnce sync.Once
 	stopOnce sync.Once
 	mu       sync.RWMutex //gard clients & offlineClients map
@@ -1554,7 +1556,11 @@ func (srv *server) Run() (err error) {
 	go srv.eventLoop()
 	go srv.serveAPIServer()
 	for _, ln := range srv.tcpListener {
-		go srv.serveTCP(ln)
+		srv.acceptWg.Add(1)
+		go func(ln net.Listener) {
+			defer srv.acceptWg.Done()
+			srv.serveTCP(ln)
+		}(ln)
 	}
 	for _, server := range srv.websocketServer {
 		mux := http.NewServeMux()
@@ -1588,6 +1594,9 @@ func (srv *server) Stop(ctx context.Context) error {
 		for _, ws := range srv.websocketServer {
 			ws.Server.Shutdown(ctx)
 		}
+		// a connection accepted just before its listener was closed is either tracked or closed once its
+		// accept loop has ended
+		srv.acceptWg.Wait()
 		// close all accepted connections, including those that have not completed CONNECT
 		srv.mu.Lock()
 		srv.stopping = true
